@@ -26,6 +26,11 @@ def merge (attrs : List (Bool × String)) : Iface := attrs.foldl step .none
 /-- `convertNonSiUnits` -/
 def respell (u : String) : String := if u = "liter" then "litre" else if u = "meter" then "metre" else u
 
+/-- `isEncapsulationRelationship`: a 1.x group describes the encapsulation hierarchy when one of its `relationship_ref`
+    children has `relationship="encapsulation"` (a group may carry several, e.g. a named containment hierarchy as well);
+    the argument is the value of the `relationship` attribute of every `relationship_ref`, `none` where it has none -/
+def isEncapsulation (refs : List (Option String)) : Bool := refs.any (· = some "encapsulation")
+
 inductive Version | v10 | v11 | v20 | other
   deriving DecidableEq, Repr
 
